@@ -61,7 +61,7 @@ from fractions import Fraction
 
 from . import opcodes as oc
 
-RATE_NUM = {'ir': 0, 'kr': 1, 'ar': 2, 'new': 0, 'tr': 1}
+RATE_NUM = {'ir': 0, 'kr': 1, 'ar': 2, 'new': 0, 'tr': 1, 'dr': 3}
 RATE_WORD = {0: 'scalar', 1: 'control', 2: 'audio', 3: 'demand'}
 
 # ---------------------------------------------------------------------------
@@ -167,6 +167,209 @@ UNIT_SHAPE = {
     'PV_MagBelow': (2, 1), 'PV_MagSmear': (2, 1), 'PV_MagSquared': (1, 1),
     'PV_BrickWall': (2, 1), 'RandSeed': (2, 1), 'RandID': (1, 1),
 }
+
+
+# ---------------------------------------------------------------------------
+# Extension table (profile c01, gen_program(..., extra=True) only; the entries
+# carry ext=True and are never drawn by mk_src(), so the case streams of the
+# older productions do not change).
+#
+# (A) units with a side effect beyond their output, from the SuperCollider
+#     class and server documentation.  A node's 'args' are the *unit inputs in
+#     the order the server reads them* (documented per unit), RENDER turns them
+#     back into the constructor call of the language side:
+#       done actions   DetectSilence Line XLine Linen EnvGen PlayBuf Duty TDuty
+#                      DemandEnvGen RecordBuf (input 'da' = index of the
+#                      doneAction input; a unit whose ONLY side effect is its
+#                      done action and whose doneAction is the constant 0 has
+#                      none: it is classified 'stateful' for that node)
+#       node control   FreeSelf PauseSelf Free Pause FreeSelfWhenDone
+#                      PauseSelfWhenDone
+#       messages       SendTrig SendReply SendPeakRMS Poll Dpoll CheckBadValues
+#       buffer writes  RecordBuf BufWr DelTapWr ScopeOut DiskOut Dbufwr
+#       bus writes     XOut (Out ReplaceOut OffsetOut above)
+#     Done reads the done flag of another unit and has no effect of its own.
+# (B) demand-rate units (rate number 3, constructor .dr) and the units that
+#     pull them (Demand, Duty, TDuty, DemandEnvGen); the ones that draw from
+#     the synth's random generator are 'effect' like the noise units above.
+# arg kinds in addition to the ones above: 'da' done action, 'trig' a signal of
+# exactly the unit's rate, 'ins' 1-3 such signals, 'vals' 0-3 operands, 'str'
+# a counted string (length, characters), 'env' an envelope array, 'src' a unit
+# with a done flag, 'bufc' a buffer number, 'flag' 0 or 1, 'any' any operand,
+# 'dem' a demand-rate expression, 'dlist' 1-4 constants / demand expressions.
+# ---------------------------------------------------------------------------
+EXT_UGENS = {
+    # -- (A) value returning ---------------------------------------------------
+    'DetectSilence': dict(m=('ar', 'kr'), args=('in', 'c', 'tag', 'da'),
+                          eff='effect', da=3),
+    'XLine':    dict(m=('ar', 'kr'), args=('ir', 'ir', 'tag', 'da'),
+                     eff='effect', da=3, done=True),
+    'Linen':    dict(m=('kr',), args=('sig', 'c', 'c', 'tag', 'da'),
+                     eff='effect', da=4, done=True),
+    'EnvGen':   dict(m=('ar', 'kr'), args=('sig', 'sig', 'sig', 'sig', 'da',
+                                           'env'), eff='effect', da=4,
+                     done=True),
+    'PlayBuf':  dict(m=('ar', 'kr'), args=('bufc', 'sig', 'sig', 'tag', 'flag',
+                                           'da'), eff='effect', da=5,
+                     multi=True, done=True),
+    'Done':     dict(m=('kr',), args=('src',), eff='stateful'),
+    'FreeSelfWhenDone':  dict(m=('kr',), args=('src',), eff='effect'),
+    'PauseSelfWhenDone': dict(m=('kr',), args=('src',), eff='effect'),
+    'Free':     dict(m=('kr',), args=('sig', 'tag'), eff='effect'),
+    'Pause':    dict(m=('kr',), args=('sig', 'tag'), eff='effect'),
+    'CheckBadValues': dict(m=('ar', 'kr'), args=('in', 'tag', 'c'),
+                           eff='effect'),
+    'RecordBuf': dict(m=('ar', 'kr'), args=('bufc', 'sig', 'sig', 'sig', 'sig',
+                                            'flag', 'sig', 'da', 'ins'),
+                      eff='effect'),
+    'BufWr':    dict(m=('ar', 'kr'), args=('bufc', 'trig', 'flag', 'ins'),
+                     eff='effect'),
+    'DelTapWr': dict(m=('ar', 'kr'), args=('tag', 'in'), eff='effect'),
+    'DiskOut':  dict(m=('ar',), args=('tag', 'ins'), eff='effect'),
+    # -- (A) statements (the constructor hands back its input or nothing) ------
+    'PauseSelf': dict(m=('kr',), sink='args', args=('sig',), eff='effect',
+                      nout=1),
+    'Poll':     dict(m=('ar', 'kr'), sink='args', args=('trig', 'sig', 'tag',
+                                                        'str'),
+                     eff='effect', nout=1),
+    'SendReply': dict(m=('ar', 'kr'), sink='args', args=('trig', 'tag', 'str',
+                                                         'vals'),
+                      eff='effect', nout=0),
+    'SendPeakRMS': dict(m=('ar', 'kr'), sink='args',
+                        args=('c', 'c', 'tag', ('k', 1), 'in', 'str'),
+                        eff='effect', nout=0),
+    'ScopeOut': dict(m=('ar', 'kr'), sink='args', args=('tag', 'ins'),
+                     eff='effect', nout=1),
+    'XOut':     dict(m=('ar', 'kr'), sink='args', args=('bus', 'sig', 'ins'),
+                     eff='effect', nout=0),
+    # -- (B) demand rate ---------------------------------------------------------
+    'Dseries':  dict(m=('dr',), args=('len', 'dnum', 'dnum'), eff='stateful'),
+    'Dgeom':    dict(m=('dr',), args=('len', 'dnum', 'dnum'), eff='stateful'),
+    'Dwhite':   dict(m=('dr',), args=('len', 'dnum', 'dnum'), eff='effect'),
+    'Diwhite':  dict(m=('dr',), args=('len', 'dnum', 'dnum'), eff='effect'),
+    'Dbrown':   dict(m=('dr',), args=('len', 'dnum', 'dnum', 'dnum'),
+                     eff='effect'),
+    'Dibrown':  dict(m=('dr',), args=('len', 'dnum', 'dnum', 'dnum'),
+                     eff='effect'),
+    'Dseq':     dict(m=('dr',), args=('len', 'dlist'), eff='stateful'),
+    'Dser':     dict(m=('dr',), args=('len', 'dlist'), eff='stateful'),
+    'Dshuf':    dict(m=('dr',), args=('len', 'dlist'), eff='effect'),
+    'Drand':    dict(m=('dr',), args=('len', 'dlist'), eff='effect'),
+    'Dxrand':   dict(m=('dr',), args=('len', 'dlist'), eff='effect'),
+    'Dstutter': dict(m=('dr',), args=('dnum', 'dem'), eff='stateful'),
+    'Dswitch1': dict(m=('dr',), args=('dnum', 'dlist'), eff='stateful'),
+    'Dswitch':  dict(m=('dr',), args=('dnum', 'dlist'), eff='stateful'),
+    'Dreset':   dict(m=('dr',), args=('dem', 'dnum'), eff='stateful'),
+    'Dconst':   dict(m=('dr',), args=('dnum', 'dem', 'c'), eff='stateful'),
+    'Dbufrd':   dict(m=('dr',), args=('bufc', 'dem', 'flag'), eff='stateful'),
+    'Dbufwr':   dict(m=('dr',), args=('bufc', 'dem', 'dem', 'flag'),
+                     eff='effect'),
+    'Dpoll':    dict(m=('dr',), args=('dem', 'tag', 'flag', 'str'),
+                     eff='effect'),
+    'Demand':   dict(m=('ar', 'kr'), args=('trig', 'sig', 'dems'),
+                     eff='stateful', multi=True),
+    'Duty':     dict(m=('ar', 'kr'), args=('dem', ('k', 0), 'da', 'dem'),
+                     eff='effect', da=2, done=True),
+    'TDuty':    dict(m=('ar', 'kr'), args=('dem', ('k', 0), 'da', 'dem', 'flag'),
+                     eff='effect', da=2, done=True),
+    'DemandEnvGen': dict(m=('kr',), args=('dem', 'dem', 'c', 'c', 'sig', 'sig',
+                                          'c', 'c', 'c', 'da'),
+                         eff='effect', da=9, done=True),
+}
+for _k, _v in EXT_UGENS.items():
+    _v['ext'] = True
+UGENS.update(EXT_UGENS)
+UGENS['Line']['done'] = True
+
+# the classes whose only documented side effect is the done action
+DONE_ACTION_ONLY = tuple(k for k, v in EXT_UGENS.items()
+                         if 'da' in v and k not in ('RecordBuf',))
+DEMAND_LEAVES = ('Dseries', 'Dgeom', 'Dwhite', 'Diwhite', 'Dbrown', 'Dibrown',
+                 'Dseq', 'Dser', 'Dshuf', 'Drand', 'Dxrand')
+DEMAND_WRAPPERS = ('Dstutter', 'Dswitch1', 'Dswitch', 'Dreset', 'Dconst',
+                   'Dbufrd', 'Dbufwr', 'Dpoll', 'Dseq', 'Drand')
+DEMAND_PULLERS = ('Demand', 'Demand', 'Demand', 'Duty', 'TDuty', 'DemandEnvGen')
+EFFECT_UNIT_CLASSES = tuple(
+    k for k, v in EXT_UGENS.items()
+    if 'dr' not in v['m'] and k not in DEMAND_PULLERS and k != 'Done')
+
+UNIT_SHAPE.update({
+    'DetectSilence': (4, 1), 'XLine': (4, 1), 'Linen': (5, 1),
+    'EnvGen': (None, 1), 'PlayBuf': (6, None), 'Done': (1, 1),
+    'FreeSelfWhenDone': (1, 1), 'PauseSelfWhenDone': (1, 1), 'Free': (2, 1),
+    'Pause': (2, 1), 'CheckBadValues': (3, 1), 'RecordBuf': (None, 1),
+    'BufWr': (None, 1), 'DelTapWr': (2, 1), 'DiskOut': (None, 1),
+    'PauseSelf': (1, 1), 'Poll': (None, 1), 'SendReply': (None, 0),
+    'SendPeakRMS': (None, 0), 'ScopeOut': (None, 1), 'XOut': (None, 0),
+    'Dseries': (3, 1), 'Dgeom': (3, 1), 'Dwhite': (3, 1), 'Diwhite': (3, 1),
+    'Dbrown': (4, 1), 'Dibrown': (4, 1), 'Dseq': (None, 1), 'Dser': (None, 1),
+    'Dshuf': (None, 1), 'Drand': (None, 1), 'Dxrand': (None, 1),
+    'Dstutter': (2, 1), 'Dswitch1': (None, 1), 'Dswitch': (None, 1),
+    'Dreset': (2, 1), 'Dconst': (3, 1), 'Dbufrd': (3, 1), 'Dbufwr': (4, 1),
+    'Dpoll': (None, 1), 'Demand': (None, None), 'Duty': (4, 1),
+    'TDuty': (5, 1), 'DemandEnvGen': (10, 1),
+})
+
+
+def _chars(ops):
+    return ''.join(chr(int(o[1])) for o in ops)
+
+
+def _render_ext(nd, A):
+    """constructor call (language side argument order) of an extension unit
+    whose node lists the unit inputs in server order; A = operand sources"""
+    cls, m, a = nd['cls'], nd['m'], nd['args']
+    c = f'{cls}.{m}'
+    lst = lambda xs: '[' + ', '.join(xs) + ']'
+    if cls in ('DetectSilence', 'XLine', 'Linen', 'Done', 'FreeSelfWhenDone',
+               'PauseSelfWhenDone', 'Free', 'Pause', 'CheckBadValues',
+               'DelTapWr', 'PauseSelf', 'Dstutter', 'Dreset', 'Dconst',
+               'Dbufrd', 'DemandEnvGen'):
+        return f"{c}({', '.join(A)})"
+    if cls == 'EnvGen':         # (gate, scale, bias, time scale, action, *env)
+        return (f"{c}(({', '.join(A[5:])},), {A[0]}, {A[1]}, {A[2]}, {A[3]}, "
+                f"{A[4]})")
+    if cls == 'PlayBuf':
+        return f"_lst({c}({nd['nout']}, {', '.join(A)}))"
+    if cls == 'RecordBuf':      # (buf, offset, rec, pre, run, loop, trig, action, *in)
+        return f"{c}({lst(A[8:])}, {', '.join(A[:8])})"
+    if cls == 'BufWr':          # (buf, phase, loop, *in)
+        return f"{c}({lst(A[3:])}, {A[0]}, {A[1]}, {A[2]})"
+    if cls == 'DiskOut':
+        return f"{c}({A[0]}, {lst(A[1:])})"
+    if cls == 'ScopeOut':
+        return f"{c}({lst(A[1:])}, {A[0]})"
+    if cls == 'XOut':
+        return f"{c}({A[0]}, {A[1]}, {lst(A[2:])})"
+    if cls == 'Poll':           # (trig, in, id, n, *label)
+        return f"{c}({A[0]}, {A[1]}, {_chars(a[4:])!r}, {A[2]})"
+    if cls == 'Dpoll':          # (in, id, run, n, *label)
+        return f"{c}({A[0]}, {_chars(a[4:])!r}, {A[2]}, {A[1]})"
+    if cls == 'SendReply':      # (trig, id, n, *name, *values)
+        n = int(a[2][1])
+        vals = ''.join(x + ', ' for x in A[3 + n:])
+        return f"{c}({A[0]}, {_chars(a[3:3 + n])!r}, ({vals}), {A[1]})"
+    if cls == 'SendPeakRMS':    # (rate, lag, id, nsig, *sig, n, *name)
+        k = int(a[3][1])
+        return (f"{c}({lst(A[4:4 + k])}, {A[0]}, {A[1]}, "
+                f"{_chars(a[5 + k:])!r}, {A[2]})")
+    if cls in ('Dseries', 'Dgeom', 'Dwhite', 'Diwhite'):   # (length, a, b)
+        return f"{c}({A[1]}, {A[2]}, {A[0]})"
+    if cls in ('Dbrown', 'Dibrown'):                        # (length, lo, hi, step)
+        return f"{c}({A[1]}, {A[2]}, {A[3]}, {A[0]})"
+    if cls in ('Dseq', 'Dser', 'Dshuf', 'Drand', 'Dxrand'):  # (repeats, *list)
+        return f"{c}({lst(A[1:])}, {A[0]})"
+    if cls in ('Dswitch1', 'Dswitch'):                      # (index, *list)
+        return f"{c}({lst(A[1:])}, {A[0]})"
+    if cls == 'Dbufwr':         # (buf, phase, in, loop)
+        return f"{c}({A[2]}, {A[0]}, {A[1]}, {A[3]})"
+    if cls == 'Demand':         # (trig, reset, *demand units)
+        return f"_lst({c}({A[0]}, {A[1]}, {lst(A[2:])}))"
+    if cls == 'Duty':           # (dur, reset, action, level)
+        return f"{c}({A[0]}, {A[1]}, {A[3]}, {A[2]})"
+    if cls == 'TDuty':          # (dur, reset, action, level, gap first)
+        return f"{c}({A[0]}, {A[1]}, {A[3]}, {A[2]}, {A[4]})"
+    raise ValueError(f'render: no constructor form for {cls}')
 
 
 # ---------------------------------------------------------------------------
@@ -348,9 +551,13 @@ class SourceEval:
 
     def _unit(self, i, cls, rate, special, nout, ins, tag=None):
         sig = self.rho.unit_sig(cls, rate, special, nout, ins)
+        eff = UGENS[cls]['eff']
+        if cls in DONE_ACTION_ONLY and not self.analysis \
+                and ins[UGENS[cls]['da']] == self.rho.const(0):
+            eff = 'stateful'       # done action 0: nothing happens when done
         u = {'node': i, 'cls': cls, 'rate': rate, 'special': special,
              'nout': nout, 'ins': list(ins), 'sig': sig,
-             'eff': UGENS[cls]['eff'], 'tag': tag}
+             'eff': eff, 'tag': tag}
         self.units.append(u)
         self.unit_of_node[i] = u
         return u
@@ -408,7 +615,7 @@ class SourceEval:
                 nout = nd['nout']
             else:
                 ins = [self.operand(o) for o in nd['args']]
-                nout = ent.get('nout', 1)
+                nout = nd.get('nout', ent.get('nout', 1))
             if cls == 'LocalBuf':
                 # LocalBuf.new(frames, channels): inputs (channels, frames,
                 # the definition's MaxLocalBufs unit)
@@ -551,6 +758,8 @@ def render_node(i, nd, program):
             return f"v{i} = _lst(In.{nd['m']}({args[0]}, {nd['nout']}))"
         if cls == 'SetBuf':          # SetBuf.new(buf, [values], offset)
             args = [args[0], '[' + ', '.join(args[2:]) + ']', args[1]]
+        if cls in EXT_UGENS:
+            return f"v{i} = {_render_ext(nd, args)}"
         return f"v{i} = {cls}.{nd['m']}({', '.join(args)})"
     if k == 'sink':
         cls = nd['cls']
@@ -561,6 +770,8 @@ def render_node(i, nd, program):
             else:
                 chs = '[' + ', '.join(_opnd(o) for o in ch) + ']'
             return f"v{i} = {cls}.{nd['m']}({_opnd(nd['bus'])}, {chs})"
+        if cls in EXT_UGENS:
+            return f"v{i} = {_render_ext(nd, [_opnd(o) for o in nd['args']])}"
         return (f"v{i} = {cls}.{nd['m']}("
                 + ', '.join(_opnd(o) for o in nd['args']) + ')')
     raise ValueError(f'render: unknown node kind {k!r}')
@@ -953,7 +1164,8 @@ class Gen:
         if cls is None:
             cls = rng.choice([c for c, e in UGENS.items()
                               if 'sink' not in e and not e.get('wf')
-                              and e['eff'] != 'conv'])     # wf: p_width_first
+                              and e['eff'] != 'conv'
+                              and not e.get('ext')])     # wf: p_width_first
         ent = UGENS[cls]
         m = m or rng.choice(ent['m'])
         r = RATE_NUM[m]
@@ -1440,6 +1652,286 @@ class Gen:
             self.add({'k': 'ugen', 'cls': 'ClearBuf', 'm': 'new', 'args': [buf]})
         return buf
 
+    # -- extension: side-effecting units, demand rate ---------------------------
+    DONE_ACTIONS = [0, 1, 2, 2, 2, 3, 4, 7, 13, 14]
+
+    def sig_of_rate(self, r):
+        """a rate-stable signal of exactly rate r (1 | 2)"""
+        o = self.pick_node(stable=r, maxdepth=self.max_depth)
+        if o is None or self.rng.random() < 0.15:
+            o = self.mk_src(self.rng.choice(['SinOsc', 'LFSaw', 'Impulse']),
+                            'ar' if r == 2 else 'kr')
+        return o
+
+    def ext_args(self, cls, r, dem=None):
+        """operands for the inputs of extension class cls at rate number r;
+        (args, tag, nout) or None"""
+        rng = self.rng
+        args, tag, nout = [], None, None
+        for kind in UGENS[cls]['args']:
+            if isinstance(kind, tuple):
+                args.append(['c', kind[1]])
+            elif kind == 'tag':
+                tag = self.tag()
+                args.append(['c', tag])
+            elif kind == 'c':
+                args.append(['c', rng.choice([1, 2, 0.5, 0.25, 4, 0.125])])
+            elif kind == 'flag':
+                args.append(['c', rng.choice([0.0, 1.0])])
+            elif kind == 'bufc':
+                args.append(['c', rng.randrange(0, 16)])
+            elif kind == 'bus':
+                args.append(['c', rng.randrange(0, 8)])
+            elif kind == 'da':
+                if rng.random() < 0.12:
+                    o = self.pick_node(maxrate=min(r, 1), nsc=False)
+                    args.append(o or ['c', 2])
+                else:
+                    args.append(['c', rng.choice(self.DONE_ACTIONS)])
+            elif kind == 'sig':
+                args.append(self.pick(maxrate=min(r, 2), pconst=0.4))
+            elif kind == 'any':
+                args.append(self.pick(maxrate=2, pconst=0.3))
+            elif kind == 'ir':
+                args.append(self.pick(maxrate=0, pconst=0.7))
+            elif kind in ('in', 'trig'):
+                o = self.sig_of_rate(min(max(r, 1), 2))
+                if o is None:
+                    return None
+                args.append(o)
+            elif kind == 'ins':
+                for _ in range(rng.choice([1, 1, 2, 3])):
+                    o = self.sig_of_rate(min(max(r, 1), 2))
+                    if o is None:
+                        return None
+                    args.append(o)
+            elif kind == 'vals':
+                for _ in range(rng.choice([0, 1, 2, 3])):
+                    args.append(self.pick(maxrate=min(r, 2), pconst=0.3))
+            elif kind == 'str':
+                word = rng.choice(['/reply', '/tr', 'x', 'level', '/a/b'])
+                args.append(['c', len(word)])
+                args.extend(['c', ord(ch)] for ch in word)
+            elif kind == 'env':
+                nseg = rng.randint(1, 3)
+                args.extend([['c', rng.choice([0, 1, 0.5])], ['c', nseg],
+                             ['c', rng.choice([-99, -99, nseg - 1])],
+                             ['c', -99]])
+                for _ in range(nseg):
+                    tag = self.tag()
+                    args.extend([['c', rng.choice([0, 1, 0.5, 0.25])],
+                                 ['c', tag], ['c', rng.choice([1, 2, 3, 5])],
+                                 ['c', rng.choice([0, -4, 2])]])
+            elif kind == 'src':
+                c = [i for i, nd in enumerate(self.prog['nodes'])
+                     if nd.get('cls') and UGENS[nd['cls']].get('done')
+                     and self.info[i].kind == 'val']
+                if c and rng.random() < 0.8:
+                    args.append(['n', rng.choice(c)])
+                else:
+                    t = self.tag()
+                    args.append(self.add({
+                        'k': 'ugen', 'cls': 'Line', 'm': 'kr', 'tag': t,
+                        'args': [['c', 0], ['c', 1], ['c', t], ['c', 0]]}))
+            # demand rate
+            elif kind == 'len':
+                args.append(['c', rng.choice([1, 2, 3, 8, float('inf'),
+                                              float('inf')])])
+            elif kind == 'dnum':
+                args.append(self.pick(maxrate=2 if rng.random() < 0.15 else 1,
+                                      pconst=0.7))
+            elif kind == 'dlist':
+                for _ in range(rng.randint(1, 4)):
+                    if dem is not None and rng.random() < 0.3:
+                        args.append(dem)
+                    else:
+                        args.append(self.pick(maxrate=1, pconst=0.8))
+            elif kind == 'dem':
+                args.append(dem if dem is not None and rng.random() < 0.8
+                            else self.const())
+            elif kind == 'dems':
+                args.extend(dem)
+            else:
+                raise ValueError(kind)
+        if cls == 'PlayBuf':
+            nout = rng.choice([1, 2])
+        elif cls == 'Demand':
+            nout = len(dem)
+        return args, tag, nout
+
+    def mk_ext(self, cls, m=None, dem=None):
+        ent = UGENS[cls]
+        m = m or self.rng.choice(ent['m'])
+        got = self.ext_args(cls, RATE_NUM[m], dem)
+        if got is None:
+            return None
+        args, tag, nout = got
+        nd = {'k': 'sink' if 'sink' in ent else 'ugen', 'cls': cls, 'm': m,
+              'args': args}
+        if tag is not None:
+            nd['tag'] = tag
+        if nout is not None:
+            nd['nout'] = nout
+        return self.add(nd)
+
+    def hide(self, o):
+        """nothing generated later will reference node o"""
+        self.uses[o[1]] += 1000
+        self.info[o[1]].depth = 99
+
+    def p_effect_unit(self):
+        """a unit with a side effect beyond its output (done action, node
+        control, message, buffer / bus write), mostly as a statement: nothing
+        reads its output"""
+        rng = self.rng
+        cls = rng.choice(EFFECT_UNIT_CLASSES)
+        o = self.mk_ext(cls)
+        if o is None:
+            return None
+        self.features.add('effect-unit')
+        inf = self.info[o[1]]
+        if inf.kind == 'multi':
+            if rng.random() < 0.35:          # some channels are read
+                for c in rng.sample(range(inf.nout), rng.randint(1, inf.nout)):
+                    self.add({'k': 'idx', 'a': o, 'i': c})
+            else:
+                self.features.add('effect-unit-output-unused')
+        elif inf.kind == 'val':
+            if rng.random() < 0.7:
+                self.hide(o)
+                self.features.add('effect-unit-output-unused')
+        return o
+
+    def p_demand(self):
+        """demand-rate units combined with constants, scalar / control / audio
+        rate signals and each other by unary and binary operators (an
+        operation on a demand-rate value is demand rate, the highest rate),
+        pulled by Demand / Duty / TDuty / DemandEnvGen.
+        Not generated: madd / Sum3 / Sum4 on demand-rate operands and
+        `audio * x + y` with a demand-rate x or y (the fused multiply-add of
+        the language side is only defined for audio / control rate; this
+        includes such a product behind neg, x*1, x*-1, x+0, 0-x, x/1 ...,
+        which the optimiser sees through)."""
+        rng = self.rng
+        self.features.add('demand-rate')
+
+        def leaf():
+            return self.mk_ext(rng.choice(DEMAND_LEAVES), 'dr')
+
+        def is_audio_product(o):
+            """the object may be a BinaryOpUGen '*' with an audio-rate
+            factor (also behind x*1, x+0, x/1 ..., which hand x back)"""
+            if o[0] != 'n':
+                return False
+            nd = self.prog['nodes'][o[1]]
+            if nd['k'] == 'alias':
+                return is_audio_product(nd['a'])
+            if nd['k'] == 'un':      # a - (-(p)) is rewritten to a + p
+                return nd['op'] == 'neg' and is_audio_product(nd['a'])
+            if nd['k'] != 'bin':
+                return False
+            if nd['op'] == '*' and any(
+                    self.oinfo(x).hi == 2 for x in (nd['a'], nd['b'])):
+                return True
+            return any(x[0] == 'c' and x[1] in (0, 1, -1)
+                       and is_audio_product(y)
+                       for x, y in ((nd['a'], nd['b']), (nd['b'], nd['a'])))
+
+        def addable(o):
+            """may stand next to a demand-rate value in a sum / difference:
+            certainly not a product with an audio-rate factor"""
+            if o[0] != 'n':
+                return True
+            inf = self.info[o[1]]
+            if inf.hi < 2:
+                return True
+            if inf.hi == 3:
+                return not is_audio_product(o)
+            nd = self.prog['nodes'][o[1]]
+            if nd['k'] == 'idx':
+                nd = self.prog['nodes'][nd['a'][1]]
+            return nd['k'] in ('param', 'ugen')      # the unit itself
+
+        def other(op):
+            x = rng.random()
+            if x < 0.25:
+                return self.const()
+            if x < 0.35 and dexprs:
+                o = rng.choice(dexprs)
+            else:
+                r = rng.choice([0, 1, 1, 2, 2])
+                c = [i for i in self.cands(maxrate=r, nsc=False)
+                     if self.info[i].hi == r]
+                o = ['n', rng.choice(c)] if c else None
+                if o is None or (op in '+-' and not addable(o)):
+                    o = self.node_of_rate(r)
+            if o is None or (op in '+-' and not addable(o)):
+                return self.const()
+            return o
+
+        dexprs = []
+        for _ in range(rng.randint(1, 3)):
+            e = leaf()
+            if e is None:
+                continue
+            if rng.random() < 0.25:
+                w = self.mk_ext(rng.choice(DEMAND_WRAPPERS), 'dr', dem=e)
+                e = w or e
+            for _ in range(rng.choice([0, 1, 1, 2, 3])):
+                x = rng.random()
+                t = None
+                if x < 0.15:
+                    t = self.mk_un(rng.choice(['neg'] + _OPAQUE_UN), e)
+                elif x < 0.3:            # neutral constants: d*1, d+0, 0-d ...
+                    op, c, side = rng.choice([
+                        ('*', 1, 'r'), ('*', 1, 'l'), ('*', -1, 'r'),
+                        ('+', 0, 'r'), ('+', 0, 'l'), ('-', 0, 'r'),
+                        ('-', 0, 'l'), ('/', 1, 'r'), ('/', -1, 'r')])
+                    if is_audio_product(e) and op in '+-':
+                        continue
+                    t = self.mk_bin(op, e, ['c', c]) if side == 'r' else \
+                        self.mk_bin(op, ['c', c], e)
+                else:
+                    op = rng.choice(['+', '+', '-', '*', '*', '/',
+                                     rng.choice(_OPAQUE_BIN)])
+                    if is_audio_product(e) and op in '+-':
+                        op = '*'
+                    b = other(op)
+                    if op in '+-' and rng.random() < 0.2 and b[0] == 'n' \
+                            and self.nsc(b):
+                        b = self.mk_un('neg', b) or b     # d + (-x), d - (-x)
+                    if rng.random() < 0.5:
+                        t = self.mk_bin(op, e, b)
+                    else:
+                        t = self.mk_bin(op, b, e, 0)
+                    if t is not None:
+                        self.features.add('demand-rate-operand')
+                        if self.oinfo(b).hi in (1, 2):
+                            self.features.add('demand-with-control-or-audio')
+                if t is not None and self.info[t[1]].kind == 'val' \
+                        and self.info[t[1]].hi == 3:
+                    e = t
+            if self.oinfo(e).hi == 3:
+                dexprs.append(e)
+        if not dexprs:
+            return None
+        for e in dexprs:            # only demand-rate consumers read them
+            self.hide(e)
+        which = rng.choice(DEMAND_PULLERS)
+        m = rng.choice(UGENS[which]['m'])
+        if which == 'Demand':
+            o = self.mk_ext('Demand', m, dem=list(dexprs))
+            if o is None:
+                return None
+            for c in rng.sample(range(len(dexprs)),
+                                rng.randint(1, len(dexprs))):
+                self.add({'k': 'idx', 'a': o, 'i': c})
+            return o
+        o = self.mk_ext(which, m, dem=rng.choice(dexprs))
+        if o is not None and rng.random() < 0.4:
+            self.hide(o)
+        return o
+
     # -- sinks -----------------------------------------------------------------
     def audio_node(self):
         o = self.pick_node(stable=2, maxdepth=self.max_depth)
@@ -1525,19 +2017,25 @@ C01_PRODUCTIONS = [
 ]
 
 
-def gen_program(rng, profile='c01', name=None, **kw):
+C01_EXTRA_PRODUCTIONS = [('p_effect_unit', 14), ('p_demand', 9)]
+
+
+def gen_program(rng, profile='c01', name=None, extra=False, **kw):
     """A random valid program of the C01 domain (profile 'c01') - scalar
     valued nodes only, every operator has a unit-generator operand, rate
-    sensitive positions get rate-stable signals."""
+    sensitive positions get rate-stable signals.  extra=True: the productions
+    of the extension table (units with side effects beyond their output,
+    demand-rate operands) take part; a stream of its own."""
     g = Gen(rng, profile, name=name, **kw)
-    g.folding_agnostic = rng.random() < 0.25
+    g.folding_agnostic = rng.random() < (0.1 if extra else 0.25)
     g.params(rng.choice([0, 0, 1, 2, 2, 3, 4, 6]), arrays=rng.random() < 0.35)
     for _ in range(rng.randint(1, 4)):
         g.mk_src(rng.choice(['SinOsc', 'LFSaw', 'Impulse', 'WhiteNoise', 'Rand',
                              'LFNoise0', 'SampleRate']))
     steps = rng.choice([rng.randint(1, 6), rng.randint(4, 14),
                         rng.randint(8, 24)])
-    names, weights = zip(*C01_PRODUCTIONS)
+    names, weights = zip(*(C01_PRODUCTIONS + C01_EXTRA_PRODUCTIONS
+                           if extra else C01_PRODUCTIONS))
     for _ in range(steps):
         if len(g.prog['nodes']) >= g.max_nodes:
             break
